@@ -233,6 +233,8 @@ def clauseText (st : DSt) (c : Cfg) : Clause → String
       s!"C04: {callName st i} returned {r}, which is neither the peer's result nor the error its own context ended with: a cancelled call returns the context's error"
     else if c.tr == .stateless && st.tr.contains 'p' then
       s!"C04: cancel-F1 2026-07-28 on a stateless streamable server: {callName st i}, whose context never ended, returned {r} after another call was cancelled (the cancel notice lacks the per-request _meta, is refused with 400, and the client treats that as a broken connection): the session must stay usable for further calls"
+    else if st.tr == "fj" then
+      s!"C04: cancel-F2 streamable client, application/json response whose headers arrived before its body: {callName st i}, whose context never ended, returned {r} after call {st.victim} was cancelled while its response body was being read (the interrupted read is taken for a broken session): the session must stay usable for further calls and no other in-flight call may be affected by a cancellation"
     else
       s!"C04: {callName st i}, whose context never ended, returned {r} (victim {st.victim}, fault={st.fault}): the session must stay usable for further calls and no other in-flight call may be affected by a cancellation"
   | .foreignResult i p =>
